@@ -29,6 +29,10 @@ CLAIMS = {
         "text": "Symbolic execution of security.safe_join together with the stdlib path helpers it calls (posixpath.join/isabs interpreted from source; normpath via the stdlib's own pure-Python twin) on 1-3 untrusted components whose characters are solver variables over every 8-bit code point (incl. '/', '.', backslash, NUL), against absolute, relative, empty, root and nested base directories: on every path the query 'result is not None and normpath(result) lies outside normpath(base)' is unsat. utils.secure_filename on ASCII input: output alphabet, no leading dot, idempotence.",
         "note": "Trusted: interpreter/primitive models (per-path native replay against the real C normpath), the normpath twin (differentially tested against the C function on 22k strings each run), z3. Bounds: 1 component <= 6 chars, 2 <= 4, 3 <= 2 (quick). Filesystem end-to-end (send_from_directory, SharedDataMiddleware), Windows separators and non-ASCII filenames are outside the claim.",
     },
+    "C07": {
+        "text": "Each parser of the HTTP utility layer (parse_options/list/dict/set_header, parse_accept_header with all four Accept classes incl. best_match/quality/membership, parse_cache_control/csp/etags/range/content_range/if_range/age, both cookie parsers, Authorization/WWWAuthenticate.from_header, get_content_length, get_host, host_is_trusted) and Request.args are executed symbolically on a header value of n solver characters over the property's alphabet (Latin-1 without control characters); on every path the query 'an exception other than a werkzeug HTTPException escapes' is unsat, and loops are unrolled under an unwinding bound whose violation is reported as inconclusive.",
+        "note": "Trusted: interpreter/regex/codec models validated per path by native replay; stubs for base64.b64decode, urllib.parse.parse_qsl, datetime.timedelta and codecs.lookup (the last differentially tested each run). Bounds: text <= 4 characters (3 for the heavy targets) quick, 6/4 thorough. form/files/data, parse_date, Request.url/base_url and IDNA host names are outside the claim.",
+    },
     "C09": {
         "text": "Bounded symbolic execution of wsgi.LimitedStream (readinto/readall/exhaust/on_exhausted/on_disconnect) from the real source: data length, limit, is_max, read sizes, per-call fragment sizes of the underlying stream and the fault point are solver variables; every sequence of 2 (quick) / 3 (thorough) operations over read/readinto/readall/exhaust is explored and each path's query (no over-read, prefix-exactness, readinto buffer contract, disconnect/too-large only when warranted) is unsat. Holds for every value within the bounds, says nothing beyond them.",
         "note": "Trusted: the interpreter's model of Python semantics (validated per path by native replay), z3, the io.RawIOBase.read stub (documented definition), the nondeterministic underlying-stream stub. Bounds: data <= 6/8 bytes, 2/3 operations.",
